@@ -160,14 +160,14 @@ pub fn run(seed: u64, n: usize, out: &str, c16: bool) {
             // kind 0: constructor (libm inside: compared with a tolerance by the model side)
             sink.push(
                 format!("(0%N, {}, {}%N, {}, {})", sfs(&a), k, "[]", sfs(&mats(&et))),
-                format!("{{\"kind\":\"ctor\",\"k\":{},\"args\":{},\"out\":{}}}", k, jfs(&a), jfs(&mats(&et))),
+                format!("{{{}\"kind\":\"ctor\",\"k\":{},\"args\":{},\"out\":{}}}", f32_mark(), k, jfs(&a), jfs(&mats(&et))),
             );
             let before = mats(&t);
             t *= et.clone();
             // kind 1: t *= e, bit-exact given the two operands
             sink.push(
                 format!("(1%N, {}, 0%N, {}, {})", sfs(&before), sfs(&mats(&et)), sfs(&mats(&t))),
-                format!("{{\"kind\":\"mul\",\"a\":{},\"b\":{},\"out\":{}}}", jfs(&before), jfs(&mats(&et)), jfs(&mats(&t))),
+                format!("{{{}\"kind\":\"mul\",\"a\":{},\"b\":{},\"out\":{}}}", f32_mark(), jfs(&before), jfs(&mats(&et)), jfs(&mats(&t))),
             );
         }
         let m = mats(&t);
@@ -179,7 +179,7 @@ pub fn run(seed: u64, n: usize, out: &str, c16: bool) {
             // kind 2: apply
             sink.push(
                 format!("(2%N, {}, {}%N, {}, {})", sfs(&m), op, sfs(&i), sfs(&o)),
-                format!("{{\"kind\":\"apply\",\"chain\":{},\"tr\":{},\"op\":{},\"in\":{},\"out\":{}}}", chain_json(&chain), jfs(&m), op, jfs(&i), jfs(&o)),
+                format!("{{{}\"kind\":\"apply\",\"chain\":{},\"tr\":{},\"op\":{},\"in\":{},\"out\":{}}}", f32_mark(), chain_json(&chain), jfs(&m), op, jfs(&i), jfs(&o)),
             );
         }
     }
@@ -379,7 +379,7 @@ pub fn run_c16(seed: u64, n: usize, out: &str) {
         let o = match catch(|| apply(t, op, i)) { Ok(o) => o, Err(_) => return };
         sink.push(
             format!("(2%N, {}, {}%N, {}, {})", sfs(&m), op, sfs(i), sfs(&o)),
-            format!("{{\"kind\":\"apply\",\"chain\":{},\"tr\":{},\"op\":{},\"in\":{},\"out\":{},\"adv\":{}}}", chain_json(chain), jfs(&m), op, jfs(i), jfs(&o), if adv { 1 } else { 0 }),
+            format!("{{{}\"kind\":\"apply\",\"chain\":{},\"tr\":{},\"op\":{},\"in\":{},\"out\":{},\"adv\":{}}}", f32_mark(), chain_json(chain), jfs(&m), op, jfs(i), jfs(&o), if adv { 1 } else { 0 }),
         );
     };
     for (chain, op, i) in c16_corpus() {
@@ -434,7 +434,7 @@ pub fn run_c16(seed: u64, n: usize, out: &str) {
             if r.chance(0.25) {
                 sink.push(
                     format!("(1%N, {}, 0%N, {}, {})", sfs(&before), sfs(&mats(&et)), sfs(&mats(&t))),
-                    format!("{{\"kind\":\"mul\",\"a\":{},\"b\":{},\"out\":{}}}", jfs(&before), jfs(&mats(&et)), jfs(&mats(&t))),
+                    format!("{{{}\"kind\":\"mul\",\"a\":{},\"b\":{},\"out\":{}}}", f32_mark(), jfs(&before), jfs(&mats(&et)), jfs(&mats(&t))),
                 );
             }
         }
